@@ -168,12 +168,12 @@ func resolveMathClamp(t v1.MathTransform, input any) (any, error) {
 		// would wrap for values outside the int64 range.
 		switch t.GetType() { //nolint:exhaustive // We validate the type in ResolveMath
 		case v1.MathTransformTypeClampMin:
-			if i < float64(*t.ClampMin) {
+			if compareFloatInt(i, *t.ClampMin) < 0 {
 				return *t.ClampMin, nil
 			}
 			return input, nil
 		case v1.MathTransformTypeClampMax:
-			if i > float64(*t.ClampMax) {
+			if compareFloatInt(i, *t.ClampMax) > 0 {
 				return *t.ClampMax, nil
 			}
 			return input, nil
@@ -196,6 +196,30 @@ func resolveMathClamp(t v1.MathTransform, input any) (any, error) {
 		return nil, errors.Errorf(errMathTransformTypeFailed, string(t.Type))
 	}
 	return input, nil
+}
+
+// compareFloatInt compares f with n exactly, i.e. without rounding n to the
+// nearest float64 (which is lossy beyond 2^53). It returns -1, 0 or 1.
+func compareFloatInt(f float64, n int64) int {
+	switch {
+	case f >= 9223372036854775808.0: // 2^63, larger than any int64
+		return 1
+	case f < -9223372036854775808.0: // smaller than any int64
+		return -1
+	}
+	// |f| < 2^63, so truncating is exact for the integral part.
+	t := int64(f)
+	switch {
+	case t < n:
+		return -1
+	case t > n:
+		return 1
+	case f > float64(t):
+		return 1
+	case f < float64(t):
+		return -1
+	}
+	return 0
 }
 
 // ResolveMap resolves a Map transform.
